@@ -116,13 +116,15 @@ pub struct RunCfg
     pub snapshots: bool,
     pub track_access: bool,
     pub monitor: Option<CmdMonitor>,
+    /// make the caller's look at the file system an operation dependent with everything
+    pub observe: bool,
 }
 
 impl RunCfg
 {
     pub fn serial(clock: ClockModel) -> RunCfg
     {
-        RunCfg { clock, yields: false, shared: Arc::new(BTreeSet::new()), snapshots: false, track_access: false, monitor: None }
+        RunCfg { clock, yields: false, shared: Arc::new(BTreeSet::new()), snapshots: false, track_access: false, monitor: None, observe: true }
     }
 }
 
@@ -156,6 +158,7 @@ pub fn run_build(fs: &Fs, rc: &RunCfg, goal: &Option<String>) -> RunResult
     let mut printer = RecPrinter::default();
     let params = BuildParams::from_all(RULER_DIR.to_string(), vec![RULES_FILE.to_string()], None, goal.clone());
     let r = build::build(sys.clone(), &mut printer, params);
+    observe_point(rc);
     let verdict = summarize(&r);
     drop(r);
     let log = sys.take_log();
@@ -164,12 +167,27 @@ pub fn run_build(fs: &Fs, rc: &RunCfg, goal: &Option<String>) -> RunResult
     RunResult { verdict, log, prints: printer.recs, fs }
 }
 
+/// The instant at which the caller looks at the file system (in reality: the process exits).
+/// Normally every worker has been joined by then.  When ruler returns early with workers
+/// still running (e.g. an unreadable history file found while spawning), what the caller
+/// sees depends on how far they got, so the observation is an operation of its own that is
+/// dependent with everything.
+fn observe_point(rc: &RunCfg)
+{
+    if rc.observe && rc.yields && crate::sched::in_execution()
+    {
+        crate::sched::declare(crate::sched::OpDesc::Unknown);
+        shuttle::thread::yield_now();
+    }
+}
+
 pub fn run_clean(fs: &Fs, rc: &RunCfg, goal: &Option<String>) -> RunResult
 {
     let mut fs = fs.clone();
     fs.tick();
     let sys = MemSystem::new(fs, mem_cfg(rc));
     let r = build::clean(sys.clone(), RULER_DIR, vec![RULES_FILE.to_string()], goal.clone());
+    observe_point(rc);
     let verdict = summarize(&r);
     drop(r);
     let log = sys.take_log();
